@@ -21,6 +21,14 @@ KNOWN = os.path.join(ROOT, "known_findings.json")
 CASE_WATCHDOG_S = 300
 
 
+def rearm():
+    """re-arm the per-case watchdog; enumerating cases call it once per sub-run"""
+    try:
+        faulthandler.dump_traceback_later(CASE_WATCHDOG_S, exit=True)
+    except Exception:
+        pass
+
+
 def load_check(pid):
     return importlib.import_module(f"harness.checks.{pid.lower()}")
 
